@@ -285,6 +285,61 @@ return A
 """
 
 
+INDEXED_PRELUDE_FIXED = INDEXED_PRELUDE.replace(
+    "    if sub_elements and len(multiindex) == len(op.ufl_shape):",
+    "    if (sub_elements and len(multiindex) == len(op.ufl_shape)\n"
+    "            and not isinstance(element.pullback, SymmetricPullback)\n"
+    "            and product(op.ufl_shape) == element.reference_value_size):")
+
+ATTACH_BODY = """
+integrals = form.integrals()
+new_integrals = []
+for integral in integrals:
+    md = {}
+    md.update(integral.metadata())
+    degree = estimate_total_polynomial_degree(integral.integrand())
+    md["estimated_polynomial_degree"] = degree
+    new_integrals.append(integral.reconstruct(metadata=md))
+return Form(new_integrals)
+"""
+
+VARIANT = {"fixed": None}      # which variant of `indexed` the source implements (set by detect_variant)
+
+
+def _class_def():
+    tree = ast.parse(open(SRC).read())
+    return next((n for n in tree.body if isinstance(n, ast.ClassDef) and n.name == "SumDegreeEstimator"), None)
+
+
+def detect_variant():
+    """True: `indexed` is the fixed variant (fixes/C18-indexed-physical-owner.diff), False: the pinned
+    one, None: neither prelude is recognised (the model then uses the pinned variant and T1 fails)."""
+    cls = _class_def()
+    VARIANT["fixed"] = None
+    if cls is not None:
+        for s in cls.body:
+            if isinstance(s, ast.FunctionDef) and s.name == "indexed":
+                import copy
+                try:
+                    translate_indexed(copy.deepcopy(s))
+                except Untranslatable:
+                    pass
+    return VARIANT["fixed"]
+
+
+def check_attach():
+    """attach_estimated_degrees (compute_form_data.py) is pinned syntactically: it must ASSIGN the fresh
+    estimate of the current integrand to metadata['estimated_polynomial_degree'] of every integral."""
+    path = os.path.join(vlib.REPO, "ufl", "algorithms", "compute_form_data.py")
+    tree = ast.parse(open(path).read())
+    f = next((n for n in tree.body if isinstance(n, ast.FunctionDef) and n.name == "attach_estimated_degrees"), None)
+    if f is None:
+        return "attach_estimated_degrees not found"
+    if dump(ast.Module(body=strip_doc(f.body), type_ignores=[])) != dump(ast.parse(ATTACH_BODY.strip("\n"))):
+        return "attach_estimated_degrees: body changed"
+    return None
+
+
 def translate_indexed(fdef):
     """The prelude of `indexed` is compared syntactically with the structure the model's
     [indexed_walk] mirrors; the loop is translated into the Fixpoint gen_walk."""
@@ -303,8 +358,12 @@ def translate_indexed(fdef):
         raise Untranslatable("indexed: structure")
     marker = ast.parse("LOOP").body[0]
     if2.body[2] = marker
-    expected = ast.parse(INDEXED_PRELUDE.strip("\n"))
-    if dump(ast.Module(body=body, type_ignores=[])) != dump(expected):
+    got = dump(ast.Module(body=body, type_ignores=[]))
+    if got == dump(ast.parse(INDEXED_PRELUDE.strip("\n"))):
+        VARIANT["fixed"] = False
+    elif got == dump(ast.parse(INDEXED_PRELUDE_FIXED.strip("\n"))):
+        VARIANT["fixed"] = True
+    else:
         raise Untranslatable("indexed: the statements around the loop changed")
     if2.body[2] = loop
     # the loop: for sub_element in sub_elements: <body>
@@ -390,10 +449,12 @@ Ltac t1 := intros; repeat autounfold with c18gen;
 
 def emit(run):
     """Write and check coq/Gen/C18_rules.v.  Returns [(obligation name, ok, message)]."""
-    tree = ast.parse(open(SRC).read())
-    cls = next((n for n in tree.body if isinstance(n, ast.ClassDef) and n.name == "SumDegreeEstimator"), None)
+    cls = _class_def()
     out = [HEADER]
     problems = []
+    pa = check_attach()
+    if pa:
+        problems.append(pa)
     lemmas = []
     if cls is None:
         problems.append("class SumDegreeEstimator not found")
